@@ -17,7 +17,7 @@ from vcore import tlc as T
 from vcore.pool import pmap
 from vcore.tlaval import parse_dump
 
-CONSTS = {"PoolSize": 4, "MaxB": 3, "MaxC": 3, "MaxH": 2, "MaxW": 3, "MaxM": 3}
+CONSTS = {"PoolSize": 4, "MaxB": 4, "MaxC": 3, "MaxH": 2, "MaxW": 3, "MaxM": 3}
 
 
 def pool_rows(torch, e, seed, dt):
@@ -74,11 +74,24 @@ def zoo_task(t):
                 ops = ["log_prob"]
             else:
                 ops = ["log_prob", "transform_to_noise"]
+            if e.kind in ("dist", "flow") and e.has("sample") and c is not None and not e.has("nonreparam") and not e.has("discrete"):
+                # sample_and_log_prob under a constant noise stream: what is returned for a context row is a
+                # function of that row alone
+                ops.append("sample_and_log_prob")
 
             def run_op(op, idx):
                 m = fresh()
                 xin = (y if op == "inverse" else x)[idx]
                 cin = c[idx] if c is not None else None
+                if op == "sample_and_log_prob":
+                    orig_randn = torch.randn
+                    torch.randn = lambda *size, **kw: torch.full(tuple(size[0]) if len(size) == 1 and isinstance(size[0], (tuple, list, torch.Size)) else tuple(size), 0.37, dtype=dt)
+                    try:
+                        with torch.no_grad():
+                            r = m.sample_and_log_prob(2, context=cin)
+                    finally:
+                        torch.randn = orig_randn
+                    return [t_.detach() for t_ in r]
                 with torch.no_grad():
                     r = getattr(m, op)(xin, cin) if cin is not None else getattr(m, op)(xin)
                 return [t_.detach() for t_ in (r if isinstance(r, (tuple, list)) else (r,))]
